@@ -26,6 +26,21 @@ CHECKS = {
 NA = {
 }
 
+CHECKS.update({
+    'C02': dict(cat='model_checking', ref='§C02',
+                text='Each reference-log object image is decoded with ALL bytes after the base header symbolic at once, '
+                     'constrained to the decode path (shape) of the original; z3 decides that re-encoding reproduces every byte.',
+                note='quick: one image per type; thorough: all 512; padding bytes kept concrete'),
+    'C10': dict(cat='model_checking', ref='§C10',
+                text='Every decoder runs on symbolic bytes with bounds/lifetime-checked memory; the whole three-thread read '
+                     'pipeline runs on a file with a symbolic object header and must terminate (deadlock and step-budget detection).',
+                note='bounded stream sizes; allocation classes; 4 string-heavy decoders excluded from the per-decoder harness (stated); real zlib outside'),
+    'C17': dict(cat='model_checking', ref='§C17',
+                text='File::createObject executed for a symbolic 32-bit code (one path per switch arm, z3 feasibility), compared with the '
+                     'File.h class/code table; every class default-constructed in symbolic-garbage memory.',
+                note='class/code oracle = include comments of File.h + ObjectType enumerators'),
+})
+
 
 def main():
     checks = []
